@@ -897,20 +897,28 @@ func run(seed int64, n int, dir string, _ []string) {
 		}
 		if done == 0 {
 			jobs = append(jobs, corpusJobs()...)
-			jobs = append(jobs, jsonPathJobs()...)
-			jobs = append(jobs, grammarJobs(g)...)
-			jobs = append(jobs, raggedJobs()...)
-			jobs = append(jobs, lockJobs()...)
-			jobs = append(jobs, joinJobs()...)
-			jobs = append(jobs, levelPairJobs()...)
-			jobs = append(jobs, udfEffectJobs()...)
-			jobs = append(jobs, nameListJobs()...)
-			jobs = append(jobs, patternJobs()...)
-			jobs = append(jobs, fieldlessJobs()...)
-			jobs = append(jobs, fsJobs(g)...)
 		}
-		jobs = append(jobs, accessPathJobs(g, budget*3/100, done == 0)...)
-		jobs = append(jobs, sizeJobs(g, budget*2/100, done == 0)...)
+		// the deterministic grids: one slice per round (it rotates with seed + round; the rounds of a thorough run
+		// cover every slice several times), every kind of job of a grid in every slice
+		phase := int(seed%1000) + done/roundSize
+		det := func(k int, js []*job) { jobs = append(jobs, rotate(js, k, phase)...) }
+		det(2, jsonPathJobs())
+		det(6, grammarJobs(g))
+		det(4, raggedJobs())
+		det(4, lockJobs())
+		det(6, joinJobs())
+		det(4, levelPairJobs())
+		det(2, udfEffectJobs())
+		det(2, nameListJobs())
+		det(2, patternJobs())
+		det(4, fieldlessJobs())
+		det(2, fsJobs(g))
+		det(4, clauseComboJobs())
+		det(5, outputCellJobs())
+		det(6, accessPathJobs(g, 0, true))
+		det(6, sizeJobs(g, 0, true))
+		jobs = append(jobs, accessPathJobs(g, budget*3/100, false)...)
+		jobs = append(jobs, sizeJobs(g, budget*2/100, false)...)
 		jobs = append(jobs, stmtJobs(g, budget*18/100)...)
 		jobs = append(jobs, fnJobs(g, budget*47/100)...)
 		jobs = append(jobs, dataJobs(g, budget*30/100)...)
